@@ -7,7 +7,8 @@ package tabula
 // ---- C10: page selection is a set algebra; a page outside the document is an error ----
 // pageCount below is the value returned by the reader for this document.
 //@ func (*Extractor) resolvePages results (res, err)
-//@   property C10
+//@   property C10, C02
+//@   ensures without_a_pdf_reader_is_an_error: isnil(old(e.reader)) ==> err
 //@   ensures all_pages: !err && len(e.options.pages) == 0 ==> len(res) == pageCount && forall k int :: {res[k]} 0 <= k && k < len(res) ==> res[k] == k
 //@   ensures out_of_range_is_error: !err ==> forall k int :: {e.options.pages[k]} 0 <= k && k < len(e.options.pages) ==> 1 <= e.options.pages[k] && e.options.pages[k] <= pageCount
 //@   ensures ascending_no_duplicates: !err ==> forall a int, b int :: {res[a], res[b]} 0 <= a && a < b && b < len(res) ==> res[a] < res[b]
